@@ -29,6 +29,9 @@ C={
  'C08':('exploration','lock-step reference-model monitor (fid-table model) with FS-call log, fid-table hook and quiescence hang detector',
         'Random and systematically enumerated call sequences run on the real SFileSys over an instrumented file system; after every call the outcome, the exact FS calls and the whole fid table (via the verif hook) are compared with a sequential reference model; unreturned calls at quiescence are hangs.',
         'trusted: harness/fsx model (DESIGN App. A) incl. its documented relations; instrumented FS deterministic; hook p9p.VerifFidTable'),
+ 'C09':('exploration','recording-session differential monitor (arguments and results both ways) + concurrent unique-id cells under quiescence hang detection and the race detector',
+        'A recording Session behind the real ServeConn/SSession and the real CSession in front: every method with boundary arguments and scripted results/errors is compared argument-by-argument and result-by-result modulo the documented wire limits; concurrent cells (2-64 callers x payload x connection buffering) check own-result delivery and completion, with the known flow-control deadlock recognised by its five-goroutine signature only.',
+        'trusted: ename rule for errors; documented clipping rules; KNOWN_FINDINGS entry C09:flow-control-deadlock (any other hang or any crossed/lost result is a violation)'),
  'C10':('exploration','frame-length monitor on the parsed wire in both directions + min-rule oracle over boundary-dense proposals/answers',
         'Raw clients propose every boundary msize/version to the real ServeConn and a fake server answers every boundary msize/version to the real CSession; after the handshake a battery of maximal reads/writes, exact-fit frames, long strings and oversize handler results runs while every frame on the wire is measured against the agreed minimum; refusals must not dispatch anything.',
         'trusted: refcodec wire parsing; server maximum = DefaultMSize'),
